@@ -13,6 +13,7 @@ package discov
 import (
 	"context"
 	"fmt"
+	"reflect"
 	"sort"
 	"strconv"
 	"strings"
@@ -37,7 +38,26 @@ type VerifEtcd struct {
 	ready   chan string                           // one token per Watch call
 	getErrs int                                   // number of upcoming Get calls that fail
 	gets    int
+	// lease store (publisher harness): Grant / Put(WithLease) / Revoke / KeepAlive behave like a one-node etcd:
+	// a put is stored and delivered as a PUT event to every watch whose key covers it, a revoke deletes the keys
+	// attached to the lease and delivers DELETE events.
+	order     sync.Mutex // serialises Put / Revoke together with the delivery of their events
+	store     map[string]verifStored
+	nextLease int64
+	kaChans   map[clientv3.LeaseID]chan *clientv3.LeaseKeepAliveResponse
+	prefixed  map[string]bool // watch key -> watched WithPrefix
+	grants    int
+	puts      int
+	revokes   int
 }
+
+type verifStored struct {
+	val   string
+	lease clientv3.LeaseID
+}
+
+// VerifLeaseBase: leases granted by the fake are VerifLeaseBase+1, +2, … (key id 101, 102, … in the trace)
+const VerifLeaseBase = 7587870100
 
 var (
 	verifEtcdOnce sync.Once
@@ -57,6 +77,9 @@ func VerifInstallEtcd() *VerifEtcd {
 			snap:  map[string][]internal.KV{},
 			chans: map[string]chan clientv3.WatchResponse{},
 			ready: make(chan string, 1024),
+			store:    map[string]verifStored{},
+			kaChans:  map[clientv3.LeaseID]chan *clientv3.LeaseKeepAliveResponse{},
+			prefixed: map[string]bool{},
 		}
 		internal.NewClient = func([]string) (internal.EtcdClient, error) { return verifEtcd, nil }
 	})
@@ -67,7 +90,19 @@ func (e *VerifEtcd) ActiveConnection() *grpc.ClientConn { return e.conn }
 func (e *VerifEtcd) Close() error                       { return nil }
 func (e *VerifEtcd) Ctx() context.Context               { return context.Background() }
 
-func (e *VerifEtcd) Get(_ context.Context, key string, _ ...clientv3.OpOption) (*clientv3.GetResponse, error) {
+func verifIsPrefix(key string, opts []clientv3.OpOption) bool {
+	return len(clientv3.OpGet(key, opts...).RangeBytes()) > 0
+}
+
+func verifCovers(watchKey string, prefix bool, key string) bool {
+	if prefix {
+		return strings.HasPrefix(key, watchKey)
+	}
+	return key == watchKey
+}
+
+func (e *VerifEtcd) Get(_ context.Context, key string, opts ...clientv3.OpOption) (*clientv3.GetResponse, error) {
+	prefix := verifIsPrefix(key, opts)
 	e.mu.Lock()
 	defer e.mu.Unlock()
 	e.gets++
@@ -75,29 +110,150 @@ func (e *VerifEtcd) Get(_ context.Context, key string, _ ...clientv3.OpOption) (
 	for _, kv := range e.snap[key] {
 		resp.Kvs = append(resp.Kvs, &mvccpb.KeyValue{Key: []byte(kv.Key), Value: []byte(kv.Val)})
 	}
+	var keys []string
+	for k := range e.store {
+		if verifCovers(key, prefix, k) {
+			keys = append(keys, k)
+		}
+	}
+	sort.Strings(keys)
+	for _, k := range keys {
+		resp.Kvs = append(resp.Kvs, &mvccpb.KeyValue{Key: []byte(k), Value: []byte(e.store[k].val), Lease: int64(e.store[k].lease)})
+	}
 	return resp, nil
 }
 
 func (e *VerifEtcd) Grant(context.Context, int64) (*clientv3.LeaseGrantResponse, error) {
-	return nil, fmt.Errorf("verif: not supported")
+	e.mu.Lock()
+	defer e.mu.Unlock()
+	e.nextLease++
+	e.grants++
+	return &clientv3.LeaseGrantResponse{ID: clientv3.LeaseID(VerifLeaseBase + e.nextLease), TTL: 10}, nil
 }
 
-func (e *VerifEtcd) KeepAlive(context.Context, clientv3.LeaseID) (<-chan *clientv3.LeaseKeepAliveResponse, error) {
-	return nil, fmt.Errorf("verif: not supported")
+func (e *VerifEtcd) KeepAlive(_ context.Context, id clientv3.LeaseID) (<-chan *clientv3.LeaseKeepAliveResponse, error) {
+	ch := make(chan *clientv3.LeaseKeepAliveResponse)
+	e.mu.Lock()
+	e.kaChans[id] = ch
+	e.mu.Unlock()
+	return ch, nil
 }
 
-func (e *VerifEtcd) Put(context.Context, string, string, ...clientv3.OpOption) (*clientv3.PutResponse, error) {
-	return nil, fmt.Errorf("verif: not supported")
+// CloseKeepAlive closes the keep-alive channel of the lease (the lease expired / the connection was lost).
+func (e *VerifEtcd) CloseKeepAlive(id clientv3.LeaseID) {
+	e.mu.Lock()
+	ch := e.kaChans[id]
+	delete(e.kaChans, id)
+	e.mu.Unlock()
+	if ch == nil {
+		panic("verif: no keep-alive channel for the lease")
+	}
+	close(ch)
 }
 
-func (e *VerifEtcd) Revoke(context.Context, clientv3.LeaseID) (*clientv3.LeaseRevokeResponse, error) {
-	return nil, fmt.Errorf("verif: not supported")
+// deliver hands the events to every established watch that covers the key (called with e.order held).
+func (e *VerifEtcd) deliver(key string, ev *clientv3.Event) {
+	e.mu.Lock()
+	var wks []string
+	for wk := range e.chans {
+		if verifCovers(wk, e.prefixed[wk], key) {
+			wks = append(wks, wk)
+		}
+	}
+	e.mu.Unlock()
+	sort.Strings(wks)
+	for _, wk := range wks {
+		e.Push(wk, clientv3.WatchResponse{Events: []*clientv3.Event{ev}})
+		e.Sync(wk)
+	}
 }
 
-func (e *VerifEtcd) Watch(_ context.Context, key string, _ ...clientv3.OpOption) clientv3.WatchChan {
+func (e *VerifEtcd) Put(_ context.Context, key, val string, opts ...clientv3.OpOption) (*clientv3.PutResponse, error) {
+	lease := clientv3.LeaseID(reflect.ValueOf(clientv3.OpPut(key, val, opts...)).FieldByName("leaseID").Int())
+	e.order.Lock()
+	defer e.order.Unlock()
+	e.mu.Lock()
+	e.store[key] = verifStored{val, lease}
+	e.rev++
+	e.mu.Unlock()
+	e.deliver(key, &clientv3.Event{Type: clientv3.EventTypePut, Kv: &mvccpb.KeyValue{Key: []byte(key), Value: []byte(val), Lease: int64(lease)}})
+	e.mu.Lock()
+	e.puts++
+	e.mu.Unlock()
+	return &clientv3.PutResponse{}, nil
+}
+
+func (e *VerifEtcd) Revoke(_ context.Context, id clientv3.LeaseID) (*clientv3.LeaseRevokeResponse, error) {
+	e.order.Lock()
+	defer e.order.Unlock()
+	e.mu.Lock()
+	var keys []string
+	for k, st := range e.store {
+		if st.lease == id {
+			keys = append(keys, k)
+		}
+	}
+	sort.Strings(keys)
+	for _, k := range keys {
+		delete(e.store, k)
+	}
+	e.rev++
+	e.mu.Unlock()
+	for _, k := range keys {
+		e.deliver(k, &clientv3.Event{Type: clientv3.EventTypeDelete, Kv: &mvccpb.KeyValue{Key: []byte(k)}})
+	}
+	e.mu.Lock()
+	e.revokes++
+	e.mu.Unlock()
+	return &clientv3.LeaseRevokeResponse{}, nil
+}
+
+// Counts: (grants, puts, revokes) completed so far.
+func (e *VerifEtcd) Counts() (int, int, int) {
+	e.mu.Lock()
+	defer e.mu.Unlock()
+	return e.grants, e.puts, e.revokes
+}
+
+// AwaitCounts waits until at least the given numbers of puts and revokes have completed; false: timeout.
+func (e *VerifEtcd) AwaitCounts(puts, revokes int, max time.Duration) bool {
+	deadline := time.Now().Add(max)
+	for {
+		_, p, r := e.Counts()
+		if p >= puts && r >= revokes {
+			return true
+		}
+		if time.Now().After(deadline) {
+			return false
+		}
+		time.Sleep(2 * time.Millisecond)
+	}
+}
+
+// StoreDump prints the lease store under a key prefix: `<key id>:<value id>:<lease id>,…` sorted by key text.
+func (e *VerifEtcd) StoreDump(prefix string) string {
+	e.mu.Lock()
+	defer e.mu.Unlock()
+	var keys []string
+	for k := range e.store {
+		if strings.HasPrefix(k, prefix) {
+			keys = append(keys, k)
+		}
+	}
+	sort.Strings(keys)
+	out := make([]string, 0, len(keys))
+	for _, k := range keys {
+		out = append(out, VerifKeyID(k)+":"+VerifValID(e.store[k].val)+":"+strconv.FormatInt(int64(e.store[k].lease)-7587870000, 10))
+	}
+	return strings.Join(out, ",")
+}
+
+func (e *VerifEtcd) Watch(_ context.Context, key string, opts ...clientv3.OpOption) clientv3.WatchChan {
 	ch := make(chan clientv3.WatchResponse)
+	prefix := verifIsPrefix(key, opts)
 	e.mu.Lock()
 	e.chans[key] = ch
+	e.prefixed[key] = prefix
 	e.mu.Unlock()
 	e.ready <- key
 	return ch
@@ -124,6 +280,32 @@ func (e *VerifEtcd) AwaitWatch(prefix string) {
 			panic("verif: watch on " + prefix + " was not established")
 		}
 	}
+}
+
+// AwaitWatchOf waits for the first watch whose key starts with the service key and returns that watch key
+// (the code under test builds it: makeKeyPrefix).
+func (e *VerifEtcd) AwaitWatchOf(key string) string {
+	deadline := time.After(20 * time.Second)
+	for {
+		select {
+		case k := <-e.ready:
+			if strings.HasPrefix(k, key) {
+				return k
+			}
+		case <-deadline:
+			panic("verif: watch for " + key + " was not established")
+		}
+	}
+}
+
+// DropWatches forgets every watch channel (end of a session: sessions are sequential).
+func (e *VerifEtcd) DropWatches() {
+	e.mu.Lock()
+	e.chans = map[string]chan clientv3.WatchResponse{}
+	e.prefixed = map[string]bool{}
+	e.store = map[string]verifStored{}
+	e.kaChans = map[clientv3.LeaseID]chan *clientv3.LeaseKeepAliveResponse{}
+	e.mu.Unlock()
 }
 
 // Push hands one watch response to the watch loop (returns once the loop has received it).
@@ -306,6 +488,7 @@ type VerifSession struct {
 	Prefix    string
 	Rec       *VerifRecorder
 	Late      *Subscriber // a subscriber that joined the existing watch later (ops join / joinmid)
+	awaited   bool        // the first watch of the session has been awaited
 	Dead      bool        // cluster.reload deadlocked: the cluster is unusable, the rest of the section is skipped
 }
 
@@ -362,6 +545,7 @@ var verifSessionSeq int
 // VerifNewSession prepares a fresh watch key (empty registry).
 func VerifNewSession() *VerifSession {
 	e := VerifInstallEtcd()
+	e.DropWatches()
 	verifSessionSeq++
 	key := fmt.Sprintf("verif.rpc.%d", verifSessionSeq)
 	// a cluster of its own per session: a cluster that deadlocked (see reloadmid) is left behind
@@ -372,11 +556,21 @@ func VerifNewSession() *VerifSession {
 
 // Attach registers the recorder on the same watch (after the subscriber exists) and waits for the watch.
 func (s *VerifSession) Attach() {
-	s.Etcd.AwaitWatch(s.Prefix)
+	s.AwaitFirstWatch()
 	if err := internal.GetRegistry().Monitor(s.Endpoints, s.Key, false, s.Rec); err != nil {
 		panic(err)
 	}
 	s.Rec.Take() // the recorder joined late: it was told the current entries, which is not part of the history
+}
+
+// AwaitFirstWatch waits (once) for the watch the first subscriber of the session establishes; the watch key is
+// the one the code under test built (makeKeyPrefix): from then on the session pushes into that watch.
+func (s *VerifSession) AwaitFirstWatch() {
+	if s.awaited {
+		return
+	}
+	s.awaited = true
+	s.Prefix = s.Etcd.AwaitWatchOf(s.Key)
 }
 
 func (s *VerifSession) Detach() {
